@@ -35,6 +35,8 @@ TOP = {
         "PV.NH.inv_left", "PV.NH.inv_right", "PV.NH.C05_inverse_left", "PV.NH.C05_inverse_right", "PV.NH.C05_gauge",
         "PV.NH.X_comm", "PV.NH.main_similarity", "PV.NH.C05_similarity", "PV.NH.C05_eliminated",
     ],
+    "Unique": ["PV.lsa_unique", "PV.code_least_action", "PV.C03_unique", "PV.shift_cov", "PV.scale_cov", "PV.natural"],
+    "UniqueNH": ["PV.nh_unique", "PV.NH.code_least_action", "PV.natural_nh", "PV.C05_hermitian_limit"],
 }
 
 
